@@ -164,7 +164,7 @@ def arg_value(a):
 
 # --------------------------------------------------------------------------- configuration
 
-PRIO_MAP = {1000001: 202403010800, 1000002: 202403010900, -1000001: -(2 ** 40)}     # TLC integers are 32 bit
+PRIO_MAP = {1000001: 2147483647, 1000002: 202403010800, 1000003: 202403010900, -1000001: -(2 ** 40)}     # TLC integers are 32 bit
 
 
 def service_doc(s, explicit=None):
